@@ -6,12 +6,13 @@
 D="$(readlink -f "$1")"; W=/tmp/confirm-wt
 if [ ! -d $W ]; then git -C /repo worktree add --detach $W HEAD -q || exit 2; fi
 git -C $W checkout -q --detach "$(git -C /repo rev-parse HEAD)" && git -C $W checkout -q -- . || exit 2
-build() { cmake -G Ninja -S $W -B $W/_b -DCMAKE_BUILD_TYPE=RelWithDebInfo -DCMAKE_CXX_FLAGS=-Wno-error >/dev/null && cmake --build $W/_b -j16 2>&1 | tail -3 >/dev/null; $W/_b/symplerTest 2>&1 | tail -1; }
+OMP=""; case "$(basename "$D")" in C20*) OMP=$W/_bomp;; esac   # C20 demos take <serial-build-dir> <openmp-build-dir>
+build() { if [ -n "$OMP" ]; then cmake -G Ninja -S $W -B $OMP -DCMAKE_BUILD_TYPE=RelWithDebInfo "-DCMAKE_CXX_FLAGS=-Wno-error -fopenmp" >/dev/null && cmake --build $OMP -j16 --target sympler 2>&1 | tail -1 >/dev/null; fi; cmake -G Ninja -S $W -B $W/_b -DCMAKE_BUILD_TYPE=RelWithDebInfo -DCMAKE_CXX_FLAGS=-Wno-error >/dev/null && cmake --build $W/_b -j16 2>&1 | tail -3 >/dev/null; $W/_b/symplerTest 2>&1 | tail -1; }
 echo "== clean tree"; T0=$(build); echo "tests: $T0"
 rm -rf $W/_seed; mkdir -p $W/_seed; cp -r "$D/demo" $W/_seed/demo   # the demos may locate the sources relative to their own path
-( cd $W/_seed/demo && bash ./run.sh $W/_b >/tmp/confirm-demo-clean.log 2>&1 ); R0=$?; echo "demo exit on clean tree: $R0"
+( cd $W/_seed/demo && bash ./run.sh $W/_b $OMP >/tmp/confirm-demo-clean.log 2>&1 ); R0=$?; echo "demo exit on clean tree: $R0"
 git -C $W apply "$D/patch.diff" || { echo "patch does not apply"; exit 2; }
 echo "== patched tree"; T1=$(build); echo "tests: $T1"
-( cd $W/_seed/demo && bash ./run.sh $W/_b >/tmp/confirm-demo-patched.log 2>&1 ); R1=$?; echo "demo exit on patched tree: $R1"
+( cd $W/_seed/demo && bash ./run.sh $W/_b $OMP >/tmp/confirm-demo-patched.log 2>&1 ); R1=$?; echo "demo exit on patched tree: $R1"
 git -C $W checkout -q -- .
 if [[ "$T0" == *"OK (36)"* && "$T1" == *"OK (36)"* && $R0 == 0 && $R1 != 0 ]]; then echo "CONFIRMED"; exit 0; else echo "NOT CONFIRMED"; exit 1; fi
